@@ -47,6 +47,43 @@ def describe(f, sy, e):
     return _norm("%s(%s)" % (c, ", ".join(show(sy.operand(a)) for a in t["args"])))
 
 
+def _basekey(f, e):
+    """name-independent key of an indexed base: parameter position (or local type) + field path"""
+    r, names = fpath(e)
+    if r[0] == "param":
+        root = "arg%d" % r[1]
+    elif r[0] == "local":
+        root = "local<%s>" % f.locals[r[1]]["ty"]
+    elif r[0] == "call":
+        root = "call:" + r[1].split("::")[-1]
+    else:
+        root = r[0]
+    return root + "".join("." + n for n in names)
+
+
+def shape(f, sy, e):
+    """name-independent shape of a panic edge (used as residue key together with the function)"""
+    t = e["t"]
+    if t["t"] == "assert":
+        m = t["msg"]
+        if m["a"] == "bounds":
+            L = strip(sy.operand(m["len"]))
+            if L[0] == "const":
+                lk = (L[2] or str(L[1])).split("::")[-1]
+            elif L[0] == "len" or (L[0] == "call" and L[1].endswith("::len")):
+                lk = "len(%s)" % _basekey(f, L[1] if L[0] == "len" else L[2][0])
+            else:
+                lk = L[0]
+            return "bounds[%s]" % lk
+        return m["a"]
+    c = callee_of(t).split("::")[-1]
+    if c in ("index", "index_mut") and len(t["args"]) == 2:
+        rg = strip(sy.operand(t["args"][1]))
+        rk = rg[1].split("::")[-1] if rg[0] == "agg" else (rg[1].split("::")[-2] if rg[0] == "call" else "?")
+        return "%s(%s, %s)" % (c, _basekey(f, sy.operand(t["args"][0])), rk)
+    return c
+
+
 def type_max(f, e):
     """upper bound of an integer expression from its type / shape, or None"""
     e0 = e
@@ -188,7 +225,7 @@ def audit(ctx, prog, entries, residue, label, extra=()):
             n_edges += 1
             desc = describe(f, sy, e)
             fkey = re.sub(r"^internals::", "", f.path)
-            key = "%s: %s | %s | %s" % (label, fkey, e["kind"], desc)
+            key = "%s: %s | %s | %s" % (label, fkey, e["kind"], shape(f, sy, e))
             d = auto_discharge(f, sy, e)
             for x in extra:
                 if d:
@@ -199,8 +236,9 @@ def audit(ctx, prog, entries, residue, label, extra=()):
                 ctx.ob(R, key, True, "%s: %s" % d, loc)
                 continue
             hit = None
+            shp = shape(f, sy, e)
             for (fs, ds), (reason, side) in residue.items():
-                if (fkey == fs or fkey.endswith("::" + fs) or fkey.endswith(fs)) and ds == desc:
+                if (fkey == fs or fkey.endswith("::" + fs) or fkey.endswith(fs)) and ds == shp:
                     hit = (fs, ds, reason, side)
                     break
             if hit is None:
@@ -307,17 +345,48 @@ def side_and(*sides):
 
 
 def side_index_counts_consumed(prog, f, sy, e):
-    """parse_block_hash_from_bytes: local `index` is only set to 0 or incremented by 1 inside the Some arm of
-    next() of an iterator over `*bytes`; hence index <= number of bytes yielded <= bytes.len()"""
-    idx = [l for l, d in enumerate(f.locals) if d["name"] == "index"]
-    if len(idx) != 1:
-        return False, "no unique local `index`"
-    l = idx[0]
-    nexts = [(i, t) for i, t in f.calls() if callee_of(t).endswith("::next")]
-    some_blocks = set()
-    for i, t in nexts:
-        # iterator source must be *bytes
-        pass
+    """parse_block_hash_from_bytes: the re-slice start is a counter that is only set to 0 or incremented by 1 inside the
+    Some arm of next() of an iterator over the same slice (or that counter + 1 packed in the result tuple); hence
+    start <= number of bytes yielded (+1 for a yielded-but-uncounted terminator) <= bytes.len()"""
+    t = e["t"]
+    rg = strip(sy.operand(t["args"][1])) if t["t"] == "call" and len(t["args"]) == 2 else None
+    l = None
+    if rg is not None and rg[0] == "agg" and rg[2]:
+        st = strip(rg[2][0])
+        if st[0] == "local":
+            l = st[1]
+        elif st[0] == "field" and strip(st[1])[0] == "local":
+            # `result.1`: a (state, position) tuple local whose position components are the counter or the counter + 1
+            tl = strip(st[1])[1]
+            cnts = set()
+            for (blk, idx, kind, x) in f.defs.get(tl, []):
+                ex = sy.rvalue(x) if kind == "rv" else None
+                if ex is None or ex[0] != "agg" or len(ex[2]) != 2:
+                    return False, "position tuple assigned from %s" % (show(ex) if ex else "a call")
+                pos = strip(ex[2][1])
+                if pos[0] == "bin" and pos[1] == "Add" and const_value(pos[3]) == 1:
+                    pos = strip(pos[2])
+                if pos[0] != "local":
+                    return False, "position component %s is not the counter" % show(pos)
+                cnts.add(pos[1])
+            if len(cnts) == 1:
+                l = cnts.pop()
+    if l is None:
+        return False, "re-slice start is not a counter local"
+    lname = f.locals[l]["name"]
+    # the iterator(s) whose Some arm controls the increments must run over the very slice that is re-sliced
+    base_root = fpath(sy.operand(t["args"][0]))[0]
+    from .fold import iter_source
+    src_ok = False
+    for i2, t2 in f.calls():
+        if callee_of(t2).endswith("::next"):
+            src = sy.origin(strip(sy.operand(t2["args"][0])))
+            while src[0] == "call" and src[2] and src[1].split("::")[-1] in ("into_iter", "iter", "copied", "cloned", "take", "enumerate"):
+                src = strip(src[2][0])
+            if fpath(src)[0] == base_root and base_root[0] == "param":
+                src_ok = True
+    if not src_ok:
+        return False, "no iterator over the re-sliced parameter"
     for (blk, j, kind, x) in f.defs.get(l, []):
         if kind != "rv":
             return False, "index assigned from a call"
@@ -325,10 +394,10 @@ def side_index_counts_consumed(prog, f, sy, e):
         if ex[0] == "const" and ex[1] == 0:
             continue
         inc = None
-        if ex[0] == "bin" and ex[1] == "Add" and ex[2] == ("local", l, "index") and const_value(ex[3]) == 1:
+        if ex[0] == "bin" and ex[1] == "Add" and ex[2] == ("local", l, lname) and const_value(ex[3]) == 1:
             inc = True
         elif ex[0] == "agg" and ex[1] == "Tuple":
-            inc = ex[2][0][0] == "bin" and ex[2][0][1] == "Add" and ex[2][0][2] == ("local", l, "index") and const_value(ex[2][0][3]) == 1
+            inc = ex[2][0][0] == "bin" and ex[2][0][1] == "Add" and ex[2][0][2] == ("local", l, lname) and const_value(ex[2][0][3]) == 1
         elif ex[0] == "local":
             continue  # checked-add temp moved back (dbg builds): covered by the tuple form
         if not inc:
@@ -349,7 +418,7 @@ def side_index_counts_consumed(prog, f, sy, e):
                     ok = True
         if not ok:
             return False, "index incremented outside the Some arm of next() (bb%d)" % blk
-    return True, "`index` is 0 or +1 per item yielded by the iterator over *bytes"
+    return True, "counter `%s` is 0 or +1 per item yielded by the iterator" % lname
 
 
 # ---- discharges specific to the "never panics for any content" entry points ---------------------------------------
